@@ -28,7 +28,7 @@ RULE = (
     "upgrade_prefix_map in every insertion order up to 5 entries), a priority map with 1-3 URI prefixes per key, a "
     "reverse map with length ties, an extended prefix map, a JSON-LD context mixing string terms, @prefix dictionaries, "
     "@-keywords, the empty key and ignorable term shapes, and an rdflib graph / namespace manager (default namespace "
-    "included). Each is loaded as object and, where it is a JSON format, from a file given as str and as Path; the loader "
+    "included; plain graphs and graphs using a shared or assigned namespace manager). Each is loaded as object and, where it is a JSON format, from a file given as str and as Path; the loader "
     "monitors compare the resulting records with what the input denotes (first URI prefix canonical; *a* shortest for the "
     "reverse map; lexicographically first CURIE prefix for upgrade_prefix_map; JSON-LD term filtering), the three forms "
     "must agree, and every listed pair is expanded and compressed through the monitored methods. key = loader x input "
@@ -175,7 +175,19 @@ def run_case(ctx, g, rng):
         probe.note_key(f"jsonld:{'+'.join(sorted(shapes))}:{o[0]}", len(shapes) >= 2)
         S.counters["wl:jsonld"] += 1
     else:
-        graph = ctx.rdflib.Graph(bind_namespaces="none")
+        gstyle = rng.choice(["plain", "plain", "shared-manager", "assigned-manager"])
+        if gstyle == "plain":
+            graph = ctx.rdflib.Graph(bind_namespaces="none")
+        else:
+            # rdflib's way of sharing prefix bindings between graphs: the bindings live in another graph's store
+            holder = ctx.rdflib.Graph(bind_namespaces="none")
+            nm = ctx.rdflib.namespace.NamespaceManager(holder, bind_namespaces="none")
+            if gstyle == "shared-manager":
+                graph = ctx.rdflib.Graph(namespace_manager=nm, bind_namespaces="none")
+            else:
+                graph = ctx.rdflib.Graph(bind_namespaces="none")
+                graph.namespace_manager = nm
+        S.counters[f"wl:rdflib-graph:{gstyle}"] += 1
         names = rng.sample(["a", "b", "", "ab", "A", "GO"], k=rng.randint(0, 4))
         for p in names:
             graph.bind(p, rng.choice(["http://x/", "http://y#", "http://x/a_", "urn:z:"]))
@@ -184,7 +196,7 @@ def run_case(ctx, g, rng):
             o = call(C.from_rdflib, src)
             if o[0] == "ret":
                 exercise(o[1], den.items())
-        probe.note_key(f"rdflib:default{int('' in den)}:n{len(den)}:{o[0]}", "" in den or len(den) >= 2)
+        probe.note_key(f"rdflib:{gstyle}:default{int('' in den)}:n{len(den)}:{o[0]}", "" in den or len(den) >= 2)
         S.counters["wl:rdflib"] += 1
     if g % 199 < 6 and which == g % 199:
         inp = [pm, ppm, rpm, epm, data, den][which] if which < 6 else None
